@@ -367,6 +367,16 @@ func (e *Engine) execPath(w *Worker, h *HarnessRun, prefix []int) (newTasks [][]
 		}()
 		x.runInits()
 		x.callFunction(h.Fn, nil, nil)
+		// the completed path must be feasible: the solver confirms its path condition
+		if len(x.pc) > 0 {
+			switch x.sol.Check("path-feasible") {
+			case "unsat":
+				outcome = "infeasible"
+			case "sat":
+			default:
+				x.unknowns++
+			}
+		}
 	}()
 	w.sol.PopTo(0)
 	h.mu.Lock()
